@@ -18,6 +18,7 @@ environment; `Signer.run s evs` is the state after the events.
 namespace C20
 open Signer
 
+/- VACUITY AUDIT: no longer an obligation of the check. an arithmetic tautology. Replaced by: C20.C20_offsets_run / Vacuity.C20.offsets_both_models_decisions. -/
 /-- Offsets, arithmetic form: a key recorded while registering in epoch `reg` (under `reg + RECORDING(1)`)
 is the one retrieved in epoch `E` (under `E + RETRIEVAL(-1)`) exactly when `E = reg + SIGNING(2)`. -/
 theorem C20_offsets (E reg : Nat)
